@@ -316,6 +316,7 @@ frequent_items_sketch<T, W, H, E, A> frequent_items_sketch<T, W, H, E, A>::deser
     const auto total_weight = read<W>(is);
     const auto offset = read<W>(is);
     if (!is.good()) throw std::runtime_error("error reading from std::istream");
+    check_num_items(num_items, sketch.map.get_capacity());
 
     // batch deserialization with intermediate array of items and weights
     using AllocW = typename std::allocator_traits<A>::template rebind_alloc<W>;
@@ -376,6 +377,7 @@ frequent_items_sketch<T, W, H, E, A> frequent_items_sketch<T, W, H, E, A>::deser
     W offset;
     ptr += copy_from_mem(ptr, offset);
 
+    check_num_items(num_items, sketch.map.get_capacity());
     ensure_minimum_memory(size, ptr - base + (sizeof(W) * num_items));
     // batch deserialization with intermediate array of items and weights
     using AllocW = typename std::allocator_traits<A>::template rebind_alloc<W>;
@@ -430,6 +432,13 @@ void frequent_items_sketch<T, W, H, E, A>::check_size(uint8_t lg_cur_size, uint8
   }
   if (lg_cur_size < LG_MIN_MAP_SIZE) {
     throw std::invalid_argument("Possible corruption: lg_cur_size must not be less than " + std::to_string(LG_MIN_MAP_SIZE) + ": " + std::to_string(lg_cur_size));
+  }
+}
+
+template<typename T, typename W, typename H, typename E, typename A>
+void frequent_items_sketch<T, W, H, E, A>::check_num_items(uint32_t num_items, uint32_t capacity) {
+  if (num_items > capacity) {
+    throw std::invalid_argument("Possible corruption: number of items must not exceed the capacity of the map: " + std::to_string(num_items) + " > " + std::to_string(capacity));
   }
 }
 
